@@ -22,7 +22,7 @@ RULE = (
     "recomputed with independent set-based definitions when an operator returns. Non-trivial: a structure with an inner layer"
 )
 ASSUMPTIONS = ["one unit per layer (structure only)", "predicates used on results were validated independently by C08"]
-BOUNDS = {"quick": {"max_layers": 4, "pair_max_layers": 4}, "thorough": {"max_layers": 5, "pair_max_layers": 4}}
+BOUNDS = {"quick": {"max_layers": 4, "pair_max_layers": 4}, "thorough": {"max_layers": 6, "pair_max_layers": 4}}
 CHUNK = 1
 SHARDS = 64
 
